@@ -142,12 +142,28 @@ def run(rep):
     declsem.super_remainder(rep, mod, 'R19.3')
     declsem.super_cache_protocol(rep, mod, 'R19.4')
     declsem.super_unwrap(rep, amod, 'R19.5')
-    cf = u.func('_adapter_hook')
-    g = ccfg(cf)
-    sup = [n for n in g.nodes if n.kind == 'test' and
-           show(n.e) == 'PyObject_TypeCheck(object, &PySuper_Type)']
-    ga = [n for n in g.nodes for c in node_calls(n, 'PyObject_GetAttr')
-          if show(c) == 'PyObject_GetAttr(object, str__self__)']
-    ccheck(rep, 'R19.5', '_adapter_hook', len(sup) == 1 and len(ga) == 1,
-           'C twin unwraps __self__ of a super proxy before the factory call',
-           construct='unwrap')
+    # C twin, over path summaries (helpers expanded): the factory is called with
+    # object.__self__ exactly on the paths where object is a super proxy
+    SELF = 'PyObject_GetAttr(object, str__self__)'
+    probs = []
+    kinds = set()
+    for ps in csem.returning(csem.S(u, '_adapter_hook')):
+        fc = csem.calls(ps, 'PyObject_CallFunctionObjArgs')
+        if not fc:
+            continue
+        sup = ps.fact('PyObject_TypeCheck(object, &PySuper_Type)')
+        kinds.add(sup)
+        for e in fc:
+            a = csem.args_of(e)
+            want = SELF if sup else 'object'
+            if sup is None:
+                probs.append('factory called without testing for a super proxy')
+            elif len(a) != 3 or a[1] != want:
+                probs.append('%s: factory called with `%s`' % (
+                    'super proxy' if sup else 'plain object', a[1][:50]))
+    if kinds != {True, False}:
+        probs.append('factory-call paths seen for the super test: %s'
+                     % sorted(kinds, key=str))
+    ccheck(rep, 'R19.5', '_adapter_hook', not probs,
+           'C twin unwraps __self__ of a super proxy before the factory call'
+           if not probs else {'problems': sorted(set(probs))[:3]}, construct='unwrap')
